@@ -5,6 +5,7 @@ pub mod server;
 pub mod zone;
 pub mod tsig;
 pub mod writer;
+pub mod rrl;
 pub mod c14;
 pub mod c15;
 pub mod c16;
@@ -21,6 +22,9 @@ pub fn run(ctx: &Ctx, rep: &mut Report) -> bool {
         "c02" | "c03" | "c04" | "c05" | "c08" | "c09" => server::run(ctx, rep, &ctx.prop),
         "c06" => zone::run_c06(ctx, rep),
         "c10" => tsig::run_c10(ctx, rep),
+        "c26" => rrl::run_c26(ctx, rep),
+        "c27" => rrl::run_c27(ctx, rep),
+        "c28" => rrl::run_c28(ctx, rep),
         "c12" | "c13" => writer::run(ctx, rep, &ctx.prop),
         "c11" => tsig::run_c11(ctx, rep),
         "c20" => zone::run_c20(ctx, rep),
